@@ -92,6 +92,21 @@ def check_call(j, seed, cap):
                 res["ref-undefined"] += 1; continue
             for be in BACKENDS:
                 res["evaluations"] += 1
+                if res["coord_assignments"] == 1 and op != "set_at":
+                    # same call with update values of an unsigned / float dtype (the accumulated value must still be exact)
+                    for dt in ("uint8", "float64"):
+                        a2 = [a.copy() for a in args]; a2[-1] = a2[-1].astype(dt)
+                        try:
+                            g2 = calls.run_einx(call, a2, backend=be)
+                            r2 = R.evaluate(op, call.desc, [target.copy()] + coords + [updates.astype(dt)], dict(call.sizes))
+                            res["dtype_variants"] += 1
+                            if not calls.same_value(call, g2, r2):
+                                res["DISAGREE"] += 1
+                                bad.append(({"kind": "update-dtype", "op": op, "desc": call.desc, "shapes": str(j["shapes"]), "backend": be, "dtype": dt},
+                                            f"einx.{op}({call.desc!r}) with {dt} updates {updates.tolist()} coords={[c.tolist() for c in coords]} -> {np.asarray(g2).tolist()} but the loop gives {np.asarray(r2).tolist()}",
+                                            {"call": call.to_json(), "backend": be, "target": target.tolist(), "coords": [c.tolist() for c in coords], "updates": updates.tolist(), "dtype": dt}))
+                        except Exception:
+                            res["dtype_variant_skipped"] += 1
                 try:
                     got = calls.run_einx(call, [a.copy() for a in args], backend=be)
                 except einx.errors.EinxError as e:
@@ -213,7 +228,7 @@ def run(ctx):
 
 def replay(d):
     call = gen.Call.from_json(d["call"])
-    args = [np.array(d["target"], dtype="int64")] + [np.array(c, dtype="int64") for c in d["coords"]] + [np.array(d["updates"], dtype="int64")]
+    args = [np.array(d["target"], dtype="int64")] + [np.array(c, dtype="int64") for c in d["coords"]] + [np.array(d["updates"], dtype=d.get("dtype", "int64"))]
     got = calls.run_einx(call, [a.copy() for a in args], backend=d["backend"])
     ref = R.evaluate(call.op, call.desc, [a.copy() for a in args], dict(call.sizes))
     print(call, "coords", d["coords"]); print("einx:", np.asarray(got).tolist()); print("loop:", (ref[0] if call.op == "set_at" else ref).tolist())
